@@ -280,7 +280,14 @@ func compare(sc *Scenario, p *Projection, o *Obs) string {
 		if p.DialAddr != o.DialAddr {
 			d = append(d, fmt.Sprintf("dial address model=%s impl=%s", p.DialAddr, o.DialAddr))
 		}
-		if o.HavePayload && !bytes.Equal(p.Payload, o.DialPayload) {
+		// a Shadowsocks 2022 request header carries at most 65535 bytes minus address and lengths; the client library sends
+		// the rest of DialStream's payload as the first ordinary chunk, so for a larger payload the upstream shows a prefix
+		const ssHeaderRoom = 0xFFFF - 300
+		if o.HavePayload && len(p.Payload) > ssHeaderRoom {
+			if len(o.DialPayload) < ssHeaderRoom || !bytes.HasPrefix(p.Payload, o.DialPayload) {
+				d = append(d, fmt.Sprintf("dial payload model=%d bytes impl=%d bytes (not a header-sized prefix)", len(p.Payload), len(o.DialPayload)))
+			}
+		} else if o.HavePayload && !bytes.Equal(p.Payload, o.DialPayload) {
 			d = append(d, fmt.Sprintf("dial payload model=%d bytes impl=%d bytes", len(p.Payload), len(o.DialPayload)))
 		}
 	}
